@@ -55,6 +55,14 @@ var c20Pool = []c20Line{
 	{bn.KwFor + " (" + bn.KwVar + " i = 0; i < 2; i = i + 1) " + bn.KwPrint + " i;", "ok", ""},
 	{"{k: 1}.k;", "syntax", ""},
 	{"({k: 1}).k;", "echo", bn.KwPrint + " ({k: 1}).k;"},
+	// a line of several statements of which a later one fails: what came before has been answered, nothing lingers
+	{bn.KwPrint + " \"a\"; " + bn.KwBreak + ";", "runtime", ""},
+	{bn.KwPrint + " \"a\"; " + bn.KwReturn + " 1;", "runtime", ""},
+	{"1 + 1; " + bn.KwContinue + ";", "runtime", ""},
+	{bn.KwPrint + " \"a\"; nope; " + bn.KwPrint + " \"b\";", "runtime", ""},
+	{"{ " + bn.KwPrint + " \"a\"; " + bn.KwBreak + "; }", "runtime", ""},
+	{bn.KwFun + " sb() { " + bn.KwBreak + "; } " + bn.KwPrint + " 1; sb(); " + bn.KwPrint + " 2;", "runtime", ""},
+	{bn.KwPrint + " 1; " + bn.KwPrint + " 2; 3;", "ok", ""},
 	{"", "empty", ""},
 	{"   ", "empty", ""},
 }
